@@ -4,7 +4,9 @@ package main
 // Write/Read helpers, so that any single field can be corrupted.
 
 import (
+	"bytes"
 	"errors"
+	"net"
 	"fmt"
 	"strings"
 
@@ -42,8 +44,11 @@ func cur(c types.Currency) *types.Currency { return &c }
 func (w *world) twoRound(id types.Specifier, req, resp1 proto4.Object, second func() (proto4.Object, string), resp3 proto4.Object) error {
 	s := w.openStream()
 	defer s.Close()
-	if err := proto4.WriteRequest(s, id, req); err != nil {
-		return fmt.Errorf("write request: %w", err)
+	if cut, err := w.sendRequest(s, id, req); cut || err != nil {
+		if err == nil {
+			err = errAbort
+		}
+		return err
 	}
 	if err := proto4.ReadResponse(s, resp1); err != nil {
 		return err
@@ -58,17 +63,44 @@ func (w *world) twoRound(id types.Specifier, req, resp1 proto4.Object, second fu
 	case "done":
 		return nil
 	}
+	switch w.cut {
+	case "cut-second-half": // the stream ends in the middle of the renter's second message
+		var b bytes.Buffer
+		proto4.WriteResponse(&b, obj)
+		s.Write(b.Bytes()[:b.Len()/2])
+		return errAbort
+	case "cut-before-final": // the renter sends its second message and never reads the answer
+		proto4.WriteResponse(s, obj)
+		return errAbort
+	}
 	if err := proto4.WriteResponse(s, obj); err != nil {
 		return fmt.Errorf("write second message: %w", err)
 	}
 	return proto4.ReadResponse(s, resp3)
 }
 
+// sendRequest writes the request, or only the part of it the cut point allows.
+func (w *world) sendRequest(s net.Conn, id types.Specifier, req proto4.Object) (cut bool, err error) {
+	if w.cut == "cut-request-half" {
+		var b bytes.Buffer
+		proto4.WriteRequest(&b, id, req)
+		s.Write(b.Bytes()[:b.Len()/2])
+		return true, nil
+	}
+	if err := proto4.WriteRequest(s, id, req); err != nil {
+		return false, fmt.Errorf("write request: %w", err)
+	}
+	return w.cut == "cut-after-request", nil
+}
+
 func (w *world) oneRound(id types.Specifier, req, resp proto4.Object) error {
 	s := w.openStream()
 	defer s.Close()
-	if err := proto4.WriteRequest(s, id, req); err != nil {
-		return fmt.Errorf("write request: %w", err)
+	if cut, err := w.sendRequest(s, id, req); cut || err != nil {
+		if err == nil {
+			err = errAbort
+		}
+		return err
 	}
 	return proto4.ReadResponse(s, resp)
 }
@@ -99,7 +131,7 @@ func (sc *scen) replayOf(kind string) *replayRec {
 
 // ---- free sectors ---------------------------------------------------------------
 
-var freeMuts = join([]string{"idx-oor", "idx-huge", "idx-dup", "abort-close", "abort-error", "unknown-cid", "renewed-cid", "replay"}, chalMuts, ptMuts, rsigMuts)
+var freeMuts = join([]string{"cut-request-half", "cut-after-request", "cut-second-half", "cut-before-final", "idx-oor", "idx-huge", "idx-dup", "abort-close", "abort-error", "unknown-cid", "renewed-cid", "replay"}, chalMuts, ptMuts, rsigMuts)
 
 func (sc *scen) doFree(mut string) *outcome {
 	w := sc.w
@@ -181,7 +213,7 @@ func (sc *scen) doFree(mut string) *outcome {
 
 // ---- append sectors -------------------------------------------------------------
 
-var appendMuts = join([]string{"empty", "abort-close", "abort-error", "unknown-cid", "renewed-cid", "replay"}, chalMuts, ptMuts, rsigMuts)
+var appendMuts = join([]string{"cut-request-half", "cut-after-request", "cut-second-half", "cut-before-final", "empty", "abort-close", "abort-error", "unknown-cid", "renewed-cid", "replay"}, chalMuts, ptMuts, rsigMuts)
 
 func (sc *scen) doAppend(mut string) *outcome {
 	w := sc.w
@@ -220,7 +252,13 @@ func (sc *scen) doAppend(mut string) *outcome {
 	hp, pterm := sc.prices(mut)
 	chal, cterm := sc.challenge(key, id, absID, old.RevisionNumber+1, mut)
 	req := proto4.RPCAppendSectorsRequest{Prices: hp, Sectors: sectors, ContractID: id, ChallengeSignature: chal}
-	rev, usage, rerr := proto4.ReviseForAppendSectors(old, hp, newRoot, appended)
+	var rev types.V2FileContract
+	var usage proto4.Usage
+	rerr := errors.New("no contract")
+	if ct != nil {
+		// (on the zero contract of an unknown id core's arithmetic wraps and panics)
+		rev, usage, rerr = proto4.ReviseForAppendSectors(old, hp, newRoot, appended)
+	}
 	if rerr != nil {
 		rev = manualRev(old, newRoot)
 	}
@@ -257,7 +295,7 @@ func (sc *scen) doAppend(mut string) *outcome {
 
 // ---- fund accounts ----------------------------------------------------------------
 
-var fundMuts = join([]string{"empty", "toolong", "zero-amount", "zero-account", "exceed", "overflow", "overflow-early", "overflow-early-2",
+var fundMuts = join([]string{"cut-request-half", "cut-after-request", "empty", "toolong", "zero-amount", "zero-account", "exceed", "overflow", "overflow-early", "overflow-early-2",
 	"underpay-first", "underpay-last", "unknown-cid", "renewed-cid", "replay"}, rsigMuts)
 
 func (sc *scen) depTerm(ds []proto4.AccountDeposit) string {
@@ -354,7 +392,7 @@ func (sc *scen) doFund(mut string) *outcome {
 
 // ---- replenish accounts / pools ----------------------------------------------------
 
-var replMuts = join([]string{"chal-other-target", "empty", "toolong", "zero-target", "zero-account", "exceed",
+var replMuts = join([]string{"cut-request-half", "cut-after-request", "cut-second-half", "cut-before-final", "chal-other-target", "empty", "toolong", "zero-target", "zero-account", "exceed",
 	"nothing-due", "duplicate", "overflow", "overflow-early", "abort-close", "abort-error", "unknown-cid", "renewed-cid", "replay"}, chalMuts, rsigMuts)
 
 func (sc *scen) doReplenish(pool bool, mut string) *outcome {
@@ -519,7 +557,7 @@ func (sc *scen) doReplenish(pool bool, mut string) *outcome {
 
 // ---- sector roots --------------------------------------------------------------------
 
-var rootsMuts = join([]string{"len0", "off-oor", "len-oor", "len-huge", "unknown-cid", "renewed-cid", "replay"}, ptMuts, rsigMuts)
+var rootsMuts = join([]string{"cut-request-half", "cut-after-request", "len0", "off-oor", "len-oor", "len-huge", "unknown-cid", "renewed-cid", "replay"}, ptMuts, rsigMuts)
 
 func (sc *scen) doRoots(mut string) *outcome {
 	w := sc.w
